@@ -51,11 +51,9 @@ def run_one(case):
     if m.gaps:
         return {"outcome": "skip", "reason": "doc-gap:" + m.gaps[0]}
     V = common.enum_or_skip(m, tier, cap=150 if tier == "quick" else 1000)
-    if V is None:
-        return {"outcome": "skip", "reason": "too-big"}
+    if V is None or sum(V.values()) > (200 if tier == "quick" else 1500):
+        return beyond_enumeration(case, m, ast)
     total = sum(V.values())
-    if total > (200 if tier == "quick" else 1500):
-        return {"outcome": "skip", "reason": "too-big"}
     strat = case["strategy"]
     viols = []
     with W.SimWorld(case["run_seed"], case["knobs"], case.get("faults")) as w:
@@ -103,6 +101,52 @@ def run_one(case):
         viol = common.pick_violation(PROP, viols)
         if viol:
             base.update(outcome="violation", signature=viol[0], detail=viol[1] + " ; design=" + dast.describe(ast))
+            return base
+        base["outcome"] = "ok"
+        return base
+
+
+def beyond_enumeration(case, m, ast):
+    """Too many valid sequences for the reference to list them - but "never the same solution twice" needs no list.  When
+    no factor carries a weight (so two sequences that print identically ARE the same solution, B.8 does not apply) and the
+    sampler can be exhausted within the bounds, every returned sequence must be printed differently from every other."""
+    strat = case["strategy"]
+    weighted = any((lv[1] if f["kind"] == "basic" else lv.get("weight", 1)) != 1
+                   for f in ast["factors"] if f["kind"] in ("basic", "derived") for lv in f["levels"])
+    if weighted or case.get("faults") or strat == "IterateGen" or m.status != "ok":
+        return {"outcome": "skip", "reason": "too-big"}
+    N = 3000
+    with W.SimWorld(case["run_seed"], case["knobs"]) as w:
+        blk, b, exc = common.construct(w, ast)
+        if exc is not None:
+            return common.result_base(w, outcome="skip", reason="constructor-refused:" + type(exc).__name__)
+        w.peer_calls_cap = N + 20
+        w.rng.draws = 0
+        w.rng.track = False
+        w.draw_cap = 3000000
+        try:
+            with common.time_limit(12):
+                res, exc = common.synth(w, blk, strat, N)
+        except (common.InnerTimeout, W.HarnessCap):
+            return common.result_base(w, outcome="skip", reason="too-big")
+        if exc is not None or res is None or len(res) >= N:
+            return common.result_base(w, outcome="skip", reason="too-big")
+        seen = {}
+        dup = None
+        for i, e in enumerate(res):
+            k = tuple(sorted((str(n_), tuple(map(str, v))) for n_, v in e.items()))
+            if k in seen:
+                dup = (seen[k], i, e)
+                break
+            seen[k] = i
+        base = common.result_base(w, key=str((dast.skeleton(ast), strat, "beyond-enumeration")), nontrivial=len(res) >= 2,
+                                  summary={"design": dast.describe(ast), "returned": len(res), "strategy": strat, "beyond_enumeration": True})
+        w.count("exhausted-beyond-enumeration")
+        if dup:
+            base.update(outcome="violation",
+                        signature=common.with_family("C09/duplicate-solution/%s/beyond-enumeration" % ("sat" if strat != "RandomGen" else "random"), m),
+                        detail="%s, asked for %d, returned %d sequences of which number %d and number %d are the same: %s ; design=%s"
+                        % (strat, N, len(res), dup[0], dup[1], json.dumps(dup[2], default=str)[:300], dast.describe(ast)))
             return base
         base["outcome"] = "ok"
         return base
